@@ -37,7 +37,8 @@ SPEC = {
 LITS = ['NETFLIX', 'UBER', 'EATS', 'STAR', 'BUCKS', 'AMZN', 'MKTP', 'COSTCO', 'WHOLE', 'FOODS', 'GAS', 'CAF', 'SQ']
 DESCS = ['NETFLIX.COM Uber eats', 'star-BUCKS  *7', "O'Reilly Café AMZN Mktp", 'UBER EATS 42 SQ *COSTCO', 'Netflix', 'uber   eats', 'COSTCO GAS 100',
          'AMZN Mktp US*7 NETFLIX', 'SQ *STAR bucks REF:77', 'UBER TRIP 7', 'WHOLE FOODS MARKET #12 WA', 'STARBUCKS STORE 42', 'costco whole foods',
-         'say "GAS" now', 'back\\slash COSTCO', 'UBERUBER', 'A+B COSTCO (x)', 'GASGAS 7', 'UBEREATS', 'Plain Unknown Vendor 99', 'EATS\tUBER']
+         'say "GAS" now', 'back\\slash COSTCO', 'UBERUBER', 'A+B COSTCO (x)', 'GASGAS 7', 'UBEREATS', 'Plain Unknown Vendor 99', 'EATS\tUBER',
+         'COSTCO7', 'COSTCO x', 'NETFLIX-X', 'STAR 9', 'GAS Z']
 
 
 def gen_pattern(rnd):
@@ -83,6 +84,21 @@ def gen_file(rnd):
             tags = ['flag']                        # (a row with neither category nor tags is legal CSV and has no effect)
         rules.append(R.CsvRule(gen_pattern(rnd), gen_mods(rnd), rnd.choice(['Netflix', 'Uber Eats', "Joe's Diner", 'Shop & Co', 'M%d' % i, 'A: B', 'Big [Box]', 'Line\u2028Sep Co', 'Form\x0cFeed', 'Unit #4', 'Nel\x85Name']),
                                cat, sub, tags))
+    if rnd.random() < .35:
+        # two rows whose patterns differ only in the letter case of an escape class (\s / \S, \d / \D, \w / \W, \b / \B)
+        a = rnd.choice(LITS)
+        lo, hi = rnd.choice([('%s\\s', '%s\\S'), ('%s \\d+', '%s \\D+'), ('%s\\w', '%s\\W'), ('%s\\b', '%s\\B'), ('\\d%s', '\\D%s')])
+        pair = [R.CsvRule(lo % a, [], 'Lower %s' % a, 'ClsLower', 'x', ['lowercls']), R.CsvRule(hi % a, [], 'Upper %s' % a, 'ClsUpper', 'y', ['uppercls'])]
+        rnd.shuffle(pair)
+        for r in pair:
+            rules.insert(rnd.randint(0, len(rules)), r)
+    if rnd.random() < .35 and rules:
+        # OR over modifiers: the same row repeated with other modifiers (the only way the CSV format can say "March or April")
+        src = rnd.choice(rules)
+        for _ in range(rnd.randint(1, 2)):
+            m2 = gen_mods(rnd)
+            if m2 != src.mods:
+                rules.insert(rnd.randint(0, len(rules)), R.CsvRule(src.pattern, m2, src.merchant, src.category, src.subcategory, list(src.tags)))
     return rules
 
 
